@@ -18,13 +18,17 @@ CLAIMS = {
              "by the same creator in the same role is a no-op, every other declaration of a claimed path is rejected, "
              "and whether two declarations of one path conflict does not depend on which is already in the graph "
              "(file_conflict_symmetric); claims come only from attached nodes; the owning tree is an attached tree "
-             "whose label is a prefix of the path; anything declared under a foreign tree is rejected. The global "
-             "ownership invariants are evaluated on the real database after every generated request, and every "
-             "generated pair of declarations is applied in both orders on fresh workflows (accept/reject, message "
+             "whose label is a prefix of the path; anything declared under a foreign tree is rejected; after every "
+             "history of requests every (kind, label) has at most one node, i.e. one declaration per path "
+             "(one_declaration_per_path_after_every_history). The global ownership invariants are evaluated on the "
+             "real database after every generated request, an accepted define is checked to have recorded the "
+             "declared role, owner and resources, and every generated pair of declarations (including names that "
+             "differ only in LIKE wildcards) is applied in both orders on fresh workflows (accept/reject, message "
              "text, resulting graph).",
-        note=BASE_NOTE + "Message texts are compared on the implementation only. Known findings F15-F19 (glob versus "
-             "a product not yet on disk, nested trees of one creator, three cosmetic wording differences) are listed "
-             "in known_findings.jsonl; F12 was fixed.",
+        note=BASE_NOTE + "Message texts are compared on the implementation only. Static-tree exclusivity over histories is not a theorem "
+             "(false of the code: F21). Known findings F15-F19 and F21 (glob versus a product not yet on disk, nested "
+             "trees of one creator, four wording differences, three recycle-reattachment classes) are listed in "
+             "known_findings.jsonl; F12 was fixed.",
         technique="Lean 4 proof of the guard decision logic + kernel correspondence + both-orders differential oracle",
         design="9/C08",
     ),
@@ -67,10 +71,11 @@ CLAIMS = {
              "TARGET for a producer of a target) of the attached steps it transitively feeds; an unneeded OPTIONAL "
              "step is not dispatched; every dispatched step is, or transitively feeds, a step whose own need exceeds "
              "the threshold. The oracle recomputes the need of every step from its definition on the real database "
-             "at every dispatch and metadata refresh (also after restarts with other targets) and checks the "
-             "selection of revert_optional_steps.",
-        note=BASE_NOTE + "The closed form holds under the flag discipline of C10 (sampled, not a theorem over all "
-             "histories); whole-build statements on simulated builds.",
+             "at every dispatch and metadata refresh (also after restarts with other targets), checks the "
+             "selection of revert_optional_steps, and runs the real tui._async_build to compare the targets handed to "
+             "the director with the files the user named relative to the invocation directory.",
+        note=BASE_NOTE + "The closed form holds under the flag discipline of C10 (a theorem for histories with constant "
+             "targets between reconciliations, see C10; sampled otherwise); whole-build statements on simulated builds.",
         technique="Lean 4 proof of the per-step need computation + kernel correspondence + from-scratch need oracle",
         design="9/C11",
     ),
@@ -98,9 +103,11 @@ CLAIMS = {
              "rejected kernel request leaves state and configuration unchanged, including the composite "
              "declare_static request failing at any stage; DBSession as a state machine is serialisable for every "
              "interleaving (committed state = transactions left normally, whole, in commit order). Correspondence: "
-             "kernel sequences with rejected requests, the real DBSession under generated task schedules.",
+             "kernel sequences with rejected requests, the real DBSession under generated task schedules, rejected "
+             "requests through the real DirectorHandler (database unchanged), and the real RPCServerConnection on a "
+             "virtual clock: a call whose peer vanished is either never started or its transaction completes.",
         note=BASE_NOTE + "SQLite's atomic commit/rollback is trusted. 'Received in full is applied in full' at the "
-             "connection level is covered by C16 (handler tasks survive a vanishing peer).",
+             "connection level is decided by the applied-after-disconnect oracle shared with C16, not by a theorem.",
         technique="Lean 4 proof (serialisability by simulation relation, ast-regenerated handler table) + differential "
                   "correspondence on DBSession and on rejected kernel requests",
         design="9/C15",
@@ -113,7 +120,8 @@ CLAIMS = {
              "DirectorHandler table); failure-class mapping over the regenerated exception table. Three full "
              "statements are false of the code and kept as _partial + _negation with witnesses replayed on the real "
              "code every run (half-closed peer gets no reply, foreign reply id fails the client, unpicklable result "
-             "cancels sibling handlers).",
+             "cancels sibling handlers). The oracle also drives the real connection on a virtual clock with peers "
+             "that vanish or say goodbye while handlers are in flight.",
         note=BASE_NOTE + "asyncio task scheduling is modelled as nondeterministic events; kernel socket behaviour is "
              "exercised only in the thorough tier (socketpair).",
         technique="Lean 4 proof (decoder induction, connection invariants) + event-script correspondence on the real "
@@ -144,9 +152,9 @@ CLAIMS = {
              "links among attached nodes are well-founded); dependencies are acyclic (the recursive-sinks query is "
              "exact, one check suffices for a batch of input edges). The first group follows from a generic theorem: "
              "any predicate preserved by the primitive writes is an invariant of every history. The creator-cycle "
-             "guard rejects reattaching a node below itself; detaching the root is rejected. The remaining clauses "
-             "(undeclared => detached, succeeded => outputs built, no internal error) are evaluated by an SQL-free "
-             "oracle on the real database after every generated request.",
+             "guard rejects reattaching a node below itself; detaching the root is rejected. An UNDECLARED file is detached and has "
+             "no creator after every history (I3). The remaining clauses (succeeded => outputs built, no internal "
+             "error) are evaluated by an SQL-free oracle on the real database after every generated request.",
         note=BASE_NOTE + "The whole K layer is a model (SQL statements, triggers, recursive CTEs modelled by hand). I4 "
              "(SUCCEEDED => outputs BUILT) holds per director transaction and is decided on simulated builds (C01/C05). "
              "Known: internal ConsistencyError when a static declaration collides with a foreign file under a static "
@@ -223,9 +231,10 @@ CLAIMS = {
              "update-equals-rescan result. End-to-end equality of outputs, graph and return code is decided by a differential "
              "oracle: watch rebuild versus restart on paired simulated directors over generated edit scripts.",
         note=BASE_NOTE + "inotify runtime behaviour and the translation in change_loop are exercised, not modelled. Incomplete "
-             "phases compare return code plus the states of attached nodes, drained phases after a settling rebuild. Five "
-             "defects found by this oracle were fixed (three watcher defects, update-order, see known_findings.jsonl); known: "
-             "watch-new-directory-unreported (F8), watch-differs:change-while-detached.",
+             "phases compare return code plus the states of attached nodes, drained phases after a settling rebuild. Four "
+             "watcher defects found by this oracle were fixed (see known_findings.jsonl); known: "
+             "watch-new-directory-unreported (F8), watch-unwatched-directory-unreported, "
+             "watch-differs:change-while-detached, watch-differs:external-update-order.",
         technique="Lean 4 proof of the record_change fold and of watcher/restart hash-application equivalence + correspondence "
                   "against the real Watcher and logged sessions + differential oracle (watch rebuild versus restart) on paired "
                   "simulated directors",
@@ -240,8 +249,11 @@ CLAIMS = {
              "and directories only when empty (model of _prune_empty_dirs); the guard chain of Builder.finalize runs the "
              "cleanup exactly for return code & ~WARNING = 0, no targets, cleaning enabled (regenerated truth table over all "
              "64 return codes and the ast of every call site of the cleanup entry points); stepup clean selects exactly the "
-             "outputs under its arguments and skips modified ones unless --unsafe (regenerated SELECT_OUTPUTS truth table).",
-        note=BASE_NOTE + "That the rows in state VOLATILE/BUILT/OUTDATED are paths some step declared as output is decided "
+             "outputs under its arguments and skips modified ones unless --unsafe (regenerated SELECT_OUTPUTS truth table); "
+             "for every history of kernel requests a file row is in a product state only if an earlier accepted define or "
+             "amend declared that path as an output, hence every path the cleanup queues was declared as an output "
+             "(cleanup_queues_only_declared_outputs).",
+        note=BASE_NOTE + "That the director only issues the modelled requests, and what happens to the files on disk, is decided "
              "by the oracle on simulated histories (plan edits, user modifications, stray files, targets, --no-clean, "
              "interleaved `stepup clean` runs; the scratch tree is snapshotted around every removal pass). File system "
              "model: regular files and directories only. Changes invisible to FileHash.refreshed are outside (C13).",
